@@ -368,6 +368,31 @@ def run(ctx: Ctx):
         if not all(np.allclose(np.asarray(a, dtype=np.float64), np.asarray(b, dtype=np.float64), rtol=0, atol=1e-9) for a, b in zip(scal, scalf)):
             ctx.violation("RegionGeom.find_lat_long_along_traj", "depends-on-the-dtype-of-the-distances",
                           "the distance 100 (Python int) gives other positions than 100.0", {"cfg": list(c), "dtype": "python int"})
+    # ---- the same hypercube points in another memory layout (Fortran order, the transposed view of an (N,4) array as quasi-random
+    # samplers return it, reversed strides): event j is built from column j of u whatever the strides are
+    for c in cfgs[:3]:
+        g_ = make_geom(*c)
+        u_c = np.ascontiguousarray(rng.random((4, 37)))
+        g_.throw(u_c.copy())
+        ref_ev, ref_mask = ev_arrays(g_).copy(), np.asarray(g_.event_mask).copy()
+        nt = np.ascontiguousarray(u_c.T)
+        layouts = {"fortran-ordered copy": np.asfortranarray(u_c), "transposed view of an (N,4) array": nt.T,
+                   "reversed twice (negative strides)": u_c[:, ::-1][:, ::-1], "every other column of a wider array": np.repeat(u_c, 2, axis=1)[:, ::2]}
+        for nm_, ul in layouts.items():
+            ctx.case(("layout", c[0], nm_), None)
+            ctx.count("memory_layouts")
+            assert np.array_equal(ul, u_c)
+            try:
+                g_.throw(ul)
+                same_ = np.array_equal(ev_arrays(g_), ref_ev, equal_nan=True) and np.array_equal(np.asarray(g_.event_mask), ref_mask)
+                err = None
+            except Exception as ex:  # noqa
+                same_, err = False, f"{type(ex).__name__}: {str(ex)[:100]}"
+            if not same_:
+                ctx.violation("RegionGeom.throw", "depends-on-the-memory-layout-of-u",
+                              f"the same random numbers given as a {nm_} give other events than the C-ordered array" + (f" ({err})" if err else ""),
+                              {"cfg": list(c), "layout": nm_, "shape": list(ul.shape), "strides": list(ul.strides), "u_first_column": u_c[:, 0].tolist()})
+                break
     # ---- structured stream
     nev = 400 if ctx.thorough else 120
     for c in cfgs:
